@@ -136,3 +136,216 @@ Qed.
 
 Lemma drop_class_length W s : (length (drop_class W s) <= length s)%nat.
 Proof. induction s as [|x s IH]; cbn [drop_class length]; [lia|]. destruct (in_ranges x W); cbn [length]; lia. Qed.
+
+(* ------------------------------------------------------------------ *)
+(* continuations: extensionality, post-composition, fuel               *)
+(* ------------------------------------------------------------------ *)
+Definition ma_ext {A} (ma : str -> (str -> option A) -> option A) : Prop :=
+  forall s k1 k2, (forall x, k1 x = k2 x) -> ma s k1 = ma s k2.
+
+Lemma star_ext {A} (ma : str -> (str -> option A) -> option A) :
+  ma_ext ma -> forall n s k1 k2, (forall x, k1 x = k2 x) -> star ma k1 n s = star ma k2 n s.
+Proof.
+  intros Hma. induction n as [|n IH]; intros s k1 k2 Hk; [reflexivity|].
+  cbn [star]. rewrite (Hma s _ (fun s' => if Nat.ltb (length s') (length s) then star ma k2 n s' else None)).
+  - rewrite Hk. reflexivity.
+  - intro x. destruct (Nat.ltb (length x) (length s)); [apply IH; exact Hk | reflexivity].
+Qed.
+
+Lemma mt_ext {A} (r : regex) : ma_ext (fun s (k : str -> option A) => mt r s k).
+Proof.
+  unfold ma_ext.
+  induction r as [|c|rs|a IHa b IHb|a IHa b IHb|a IHa|a IHa|a IHa]; intros s k1 k2 Hk; cbn [mt].
+  - apply Hk.
+  - destruct s as [|y s]; [reflexivity|]. destruct (y =? c); [apply Hk | reflexivity].
+  - destruct s as [|y s]; [reflexivity|]. destruct (in_ranges y rs); [apply Hk | reflexivity].
+  - apply IHa. intro x. apply IHb. exact Hk.
+  - rewrite (IHa s k1 k2 Hk), (IHb s k1 k2 Hk). reflexivity.
+  - apply star_ext; [exact IHa | exact Hk].
+  - apply IHa. intro x. apply star_ext; [exact IHa | exact Hk].
+  - rewrite (IHa s k1 k2 Hk), Hk. reflexivity.
+Qed.
+
+Lemma star_fuel_indep {A} (ma : str -> (str -> option A) -> option A) :
+  ma_ext ma -> forall n1 n2 s k, (length s < n1)%nat -> (length s < n2)%nat -> star ma k n1 s = star ma k n2 s.
+Proof.
+  intros Hma. induction n1 as [|n1 IH]; intros n2 s k H1 H2; [lia|].
+  destruct n2 as [|n2]; [lia|]. cbn [star].
+  rewrite (Hma s _ (fun s' => if Nat.ltb (length s') (length s) then star ma k n2 s' else None)); [reflexivity|].
+  intro x. destruct (Nat.ltb (length x) (length s)) eqn:E; [|reflexivity].
+  apply Nat.ltb_lt in E. apply IH; lia.
+Qed.
+
+Definition ma_map {A B} (ma : str -> (str -> option A) -> option A) (mb : str -> (str -> option B) -> option B) (f : A -> B) : Prop :=
+  forall s k, mb s (fun x => option_map f (k x)) = option_map f (ma s k).
+
+Lemma star_map {A B} (ma : str -> (str -> option A) -> option A) (mb : str -> (str -> option B) -> option B) (f : A -> B) :
+  ma_ext mb -> ma_map ma mb f ->
+  forall n s k, star mb (fun x => option_map f (k x)) n s = option_map f (star ma k n s).
+Proof.
+  intros Hext Hmap. induction n as [|n IH]; intros s k; [reflexivity|].
+  cbn [star].
+  rewrite (Hext s _ (fun s' => option_map f (if Nat.ltb (length s') (length s) then star ma k n s' else None))).
+  - rewrite Hmap. destruct (ma s _); reflexivity.
+  - intro x. destruct (Nat.ltb (length x) (length s)); [apply IH | reflexivity].
+Qed.
+
+Lemma mt_map {A B} (f : A -> B) (r : regex) :
+  ma_map (fun s k => mt r s k) (fun s k => mt r s k) f.
+Proof.
+  unfold ma_map.
+  induction r as [|c|rs|a IHa b IHb|a IHa b IHb|a IHa|a IHa|a IHa]; intros s k; cbn [mt].
+  - reflexivity.
+  - destruct s as [|y s]; [reflexivity|]. destruct (y =? c); reflexivity.
+  - destruct s as [|y s]; [reflexivity|]. destruct (in_ranges y rs); reflexivity.
+  - rewrite <- IHa. apply mt_ext. intro x. apply IHb.
+  - rewrite IHa, IHb. destruct (mt a s k); reflexivity.
+  - apply star_map; [apply mt_ext | exact IHa].
+  - rewrite <- IHa. apply mt_ext. intro x. apply star_map; [apply mt_ext | exact IHa].
+  - rewrite IHa. destruct (mt a s k); reflexivity.
+Qed.
+
+(* ------------------------------------------------------------------ *)
+(* appending a character the regex can never consume                    *)
+(* ------------------------------------------------------------------ *)
+Lemma star_extend {A} (ma : str -> (str -> option A) -> option A) c z :
+  ma_ext ma ->
+  (forall t K, ma (t ++ c :: z) K = ma t (fun rem => K (rem ++ c :: z))) ->
+  forall n t k, star ma k n (t ++ c :: z) = star ma (fun rem => k (rem ++ c :: z)) n t.
+Proof.
+  intros Hext Hma. induction n as [|n IH]; intros t k; [reflexivity|].
+  cbn [star]. rewrite Hma.
+  rewrite (Hext t _ (fun s' => if Nat.ltb (length s') (length t) then star ma (fun rem => k (rem ++ c :: z)) n s' else None)).
+  - destruct (ma t _); reflexivity.
+  - intro x. rewrite !app_length. cbn [length].
+    replace (Nat.ltb (length x + S (length z)) (length t + S (length z))) with (Nat.ltb (length x) (length t)).
+    + destruct (Nat.ltb (length x) (length t)); [apply IH | reflexivity].
+    + destruct (Nat.ltb (length x) (length t)) eqn:E1; symmetry.
+      * apply Nat.ltb_lt in E1. apply Nat.ltb_lt. lia.
+      * apply Nat.ltb_ge in E1. apply Nat.ltb_ge. lia.
+Qed.
+
+Lemma mt_extend {A} (r : regex) c z :
+  may_consume r c = false ->
+  forall t (k : str -> option A), mt r (t ++ c :: z) k = mt r t (fun rem => k (rem ++ c :: z)).
+Proof.
+  induction r as [|x|rs|a IHa b IHb|a IHa b IHb|a IHa|a IHa|a IHa]; intros Hc t k; cbn [mt may_consume] in *.
+  - reflexivity.
+  - destruct t as [|y t]; cbn [app]; [|reflexivity]. rewrite N.eqb_sym. rewrite Hc. reflexivity.
+  - destruct t as [|y t]; cbn [app]; [|reflexivity]. rewrite Hc. reflexivity.
+  - apply orb_false_iff in Hc as [Ha Hb]. rewrite (IHa Ha). apply mt_ext. intro x. apply IHb. exact Hb.
+  - apply orb_false_iff in Hc as [Ha Hb]. rewrite (IHa Ha), (IHb Hb). reflexivity.
+  - rewrite (star_extend _ c z (mt_ext a) (fun t0 K => IHa Hc t0 K)).
+    apply star_fuel_indep; [apply mt_ext | rewrite app_length; cbn [length]; lia | lia].
+  - rewrite (IHa Hc). apply mt_ext. intro x.
+    rewrite (star_extend _ c z (mt_ext a) (fun t0 K => IHa Hc t0 K)).
+    apply star_fuel_indep; [apply mt_ext | rewrite app_length; cbn [length]; lia | lia].
+  - rewrite (IHa Hc). reflexivity.
+Qed.
+
+Lemma match_rest_extend r c z t :
+  may_consume r c = false ->
+  match_rest r (t ++ c :: z) = option_map (fun rem => rem ++ c :: z) (match_rest r t).
+Proof.
+  intro Hc. unfold match_rest. rewrite (mt_extend r c z Hc).
+  exact (mt_map (fun rem => rem ++ c :: z) r t (fun rest => Some rest)).
+Qed.
+
+(* ------------------------------------------------------------------ *)
+(* mandatory literal prefix                                             *)
+(* ------------------------------------------------------------------ *)
+Fixpoint mp (r : regex) : list ranges * bool :=
+  match r with
+  | REps => ([], true)
+  | RChar x => ([[(x, x)]], true)
+  | RClass rs => ([rs], true)
+  | RSeq a b =>
+      let (pa, fa) := mp a in
+      if fa then let (pb, fb) := mp b in (pa ++ pb, fb) else (pa, false)
+  | _ => ([], false)
+  end.
+
+(* the input does not contradict the prefix (a too short input does not) *)
+Fixpoint fits (p : list ranges) (s : str) : bool :=
+  match p, s with
+  | [], _ => true
+  | _, [] => true
+  | rs :: p', x :: s' => in_ranges x rs && fits p' s'
+  end.
+
+Fixpoint take_fixed (p : list ranges) (s : str) : option str :=
+  match p, s with
+  | [], _ => Some s
+  | _ :: _, [] => None
+  | rs :: p', x :: s' => if in_ranges x rs then take_fixed p' s' else None
+  end.
+
+Lemma take_fixed_app p1 p2 s :
+  take_fixed (p1 ++ p2) s = match take_fixed p1 s with Some s' => take_fixed p2 s' | None => None end.
+Proof.
+  revert s. induction p1 as [|rs p1 IH]; intro s; cbn [app take_fixed]; [reflexivity|].
+  destruct s as [|x s]; [reflexivity|]. destruct (in_ranges x rs); [apply IH | reflexivity].
+Qed.
+
+Lemma single_range x y : in_ranges y [(x, x)] = (y =? x).
+Proof.
+  cbn [in_ranges]. rewrite orb_false_r.
+  destruct (y =? x) eqn:E.
+  - apply N.eqb_eq in E. subst. rewrite N.leb_refl. reflexivity.
+  - apply N.eqb_neq in E. destruct (x <=? y) eqn:E1, (y <=? x) eqn:E2; try reflexivity.
+    apply N.leb_le in E1, E2. lia.
+Qed.
+
+Lemma fixed_exact {A} (r : regex) :
+  snd (mp r) = true ->
+  forall s (k : str -> option A),
+  mt r s k = match take_fixed (fst (mp r)) s with Some s' => k s' | None => None end.
+Proof.
+  induction r as [|x|rs|a IHa b IHb|a IHa b IHb|a IHa|a IHa|a IHa]; cbn [mp]; intros Hf s k; try discriminate.
+  - reflexivity.
+  - cbn [fst take_fixed mt]. destruct s as [|y s]; [reflexivity|]. rewrite single_range. destruct (y =? x); reflexivity.
+  - cbn [fst take_fixed mt]. destruct s as [|y s]; [reflexivity|]. destruct (in_ranges y rs); reflexivity.
+  - destruct (mp a) as [pa fa]. destruct fa; [|discriminate]. destruct (mp b) as [pb fb].
+    cbn [fst snd] in *. cbn [mt]. rewrite (IHa eq_refl). rewrite take_fixed_app.
+    destruct (take_fixed pa s) as [s'|]; [apply IHb; exact Hf | reflexivity].
+Qed.
+
+Lemma fits_take p s : fits p s = false -> take_fixed p s = None.
+Proof.
+  revert s. induction p as [|rs p IH]; intros s H; cbn [fits take_fixed] in *; [discriminate|].
+  destruct s as [|x s]; [discriminate|]. destruct (in_ranges x rs); [apply IH; exact H | reflexivity].
+Qed.
+
+Lemma fits_app p1 p2 s :
+  fits (p1 ++ p2) s = false ->
+  fits p1 s = false \/ exists s', take_fixed p1 s = Some s' /\ fits p2 s' = false.
+Proof.
+  revert s. induction p1 as [|rs p1 IH]; intros s H; cbn [app fits take_fixed] in *.
+  - right. exists s. split; [reflexivity | exact H].
+  - destruct s as [|x s].
+    + destruct (p1 ++ p2); discriminate.
+    + destruct (in_ranges x rs); cbn [andb] in *; [apply IH; exact H | left; reflexivity].
+Qed.
+
+Lemma mp_sound {A} (r : regex) :
+  forall s (k : str -> option A), fits (fst (mp r)) s = false -> mt r s k = None.
+Proof.
+  induction r as [|x|rs|a IHa b IHb|a IHa b IHb|a IHa|a IHa|a IHa]; cbn [mp]; intros s k H; try (cbn [fst fits] in H; discriminate).
+  - cbn [fst fits mt] in *. destruct s as [|y s]; [discriminate|]. rewrite single_range in H.
+    rewrite andb_true_r in H. rewrite H. reflexivity.
+  - cbn [fst fits mt] in *. destruct s as [|y s]; [discriminate|]. rewrite andb_true_r in H. rewrite H. reflexivity.
+  - cbn [mt]. destruct (mp a) as [pa fa] eqn:Ea. destruct fa.
+    + destruct (mp b) as [pb fb] eqn:Eb. cbn [fst] in *.
+      assert (Hfa : snd (mp a) = true) by (rewrite Ea; reflexivity).
+      rewrite (fixed_exact a Hfa). rewrite Ea. cbn [fst].
+      apply fits_app in H as [H|(s' & Ht & H)].
+      * rewrite (fits_take _ _ H). reflexivity.
+      * rewrite Ht. apply IHb. exact H.
+    + cbn [fst] in *. apply IHa. exact H.
+Qed.
+
+Lemma fits_more p s z : fits p s = false -> fits p (s ++ z) = false.
+Proof.
+  revert s. induction p as [|rs p IH]; intros s H; cbn [fits] in *; [discriminate|].
+  destruct s as [|x s]; [discriminate|]. cbn [app]. destruct (in_ranges x rs); cbn [andb] in *; [apply IH; exact H | reflexivity].
+Qed.
